@@ -434,6 +434,20 @@ class Rot(_ModeMixin, DisjointUnionStrategy):
         return f"Rot({self.mode!r},{self.k},{self.two_way},{self.perm!r}{',restricted=' + str(self.restricted) if self.restricted else ''})"
 
 
+class RotNE(Rot):
+    """the same relabelling, declared two-way but (conservatively) not an equivalence: stored with the two-way rules, never
+    folded into equivalence paths"""
+
+    def can_be_equivalent(self):
+        return False
+
+    def formal_step(self):
+        return super().formal_step() + " (not declared an equivalence)"
+
+    def __repr__(self):
+        return "RotNE" + super().__repr__()[3:]
+
+
 class SW(PW):
     """words over alphabet+{sep} with at least one `sep`, avoiding factor patterns written over alphabet only;
     statistics (name, letter, 0) only"""
@@ -850,6 +864,8 @@ def make_pack(mode="", inferral=False, symmetry=False, iterative=False, factory=
     init = [Peel(mode)]
     if rot == "split":  # a restricted one-way relabelling first, the same relabelling two-way in the next expansion set: cycles closed by an equivalence
         exp = [[Rot(mode, 1, False, None, True)], [Rot(mode, 1, True, None, "only")]] + exp
+    elif rot == "ne":
+        exp = [[Rot(mode, 1, False), RotNE(mode, 2, True)]] + exp
     elif rot:
         exp = [[Rot(mode, 1, False), Rot(mode, 2, True)]] + exp
     if sep == "plain":
